@@ -121,3 +121,5 @@ def _(eng, m, g, a):
 @model(r"^rand::thread_rng$")
 def _(eng, m, g, a):
     _FRESH[0] += 1; r = RngV(0); r.r = SymDraws(eng, "thread%d" % _FRESH[0]); return r
+
+models_std.COLLECT_HOOKS.append((re.compile(r"^(scale_value::|scale_bits::)?(BitSequence|Bits)$"), lambda eng, it, t: VecV(drain(eng, it))))
